@@ -128,3 +128,57 @@ def rule_range_bounds(run):
         if part_name in ("idx_context", "frame_partition"):
             run.ob("%s|range(%s)|last_id-used" % (it.def_, part_name), n_last >= 1, c.sp,
                    "the %s scan honours last_id (one alternative lower bound is built from it)" % part_name, reason="last-id-ignored")
+
+
+# ------------------------------------------------------------------ batches (C04 / C05)
+
+def batch_bodies(run):
+    """Bodies that create a fjall batch, with their operations."""
+    out = []
+    for b in run.facts.all_bodies():
+        mk = q.live_calls(b, C.KEYSPACE_BATCH)
+        if not mk:
+            continue
+        run.touch(b)
+        ops = q.live_calls(b, C.BATCH_INSERT, C.BATCH_REMOVE)
+        commits = q.live_calls(b, C.BATCH_COMMIT)
+        out.append({"body": b, "make": mk, "ops": ops, "commits": commits})
+    return out
+
+
+def partition_field(call, argi=1):
+    p = place_path(strip(call.arg(argi)))
+    if p and len(p) >= 2 and p[0] in ("self", "store"):
+        return p[1]
+    if p and p[0] == "<env>":
+        return p[-1]
+    return None
+
+
+def key_constructor(e):
+    """Identity of the key expression of a batch operation: ('id-bytes', place) | ('fn', callee, args) | ('other', fmt)."""
+    x = q.peel(e)
+    if x[0] == "call" and x[1].fn == "scru128::id::Scru128Id::as_bytes":
+        return ("id-bytes", fmt(strip(x[2][0])))
+    if x[0] == "call" and x[1].local:
+        return ("fn", x[1].fn, [fmt(strip(a)) for a in x[2]])
+    return ("other", fmt(x))
+
+
+def is_direct_partition_mutator(fn):
+    return fn.startswith("fjall::partition::PartitionHandle::") and fn.split("::")[-1] in (
+        "insert", "remove", "remove_weak", "ingest", "bulk_ingest")
+
+
+def rule_no_direct_mutators(run):
+    # engine self-check (positive control): the predicate must recognise fjall's mutators and reject readers
+    assert is_direct_partition_mutator("fjall::partition::PartitionHandle::insert")
+    assert is_direct_partition_mutator("fjall::partition::PartitionHandle::remove")
+    assert not is_direct_partition_mutator("fjall::partition::PartitionHandle::get")
+    facts = run.facts
+    siblings = [c for c in facts.all_calls() if c.fn.startswith("fjall::partition::PartitionHandle::")]
+    run.floor("PartitionHandle method call sites seen by the extractor (range/prefix/get: naming sanity)", len(siblings), 5)
+    direct = [c for c in siblings if is_direct_partition_mutator(c.fn) and c.bb in c.body.live_blocks()]
+    run.ob("crate|direct-partition-mutators", not direct, direct[0].sp if direct else "<crate>",
+           "no direct PartitionHandle::insert/remove outside a Batch (%d found: %s)" % (len(direct), [c.sp for c in direct]),
+           reason="write-outside-batch")
